@@ -21,7 +21,11 @@ def dyadic(fr):
     fr = Fraction(fr)
     d = fr.denominator
     assert d & (d - 1) == 0, "not dyadic"
-    return fr.numerator, -(d.bit_length() - 1)
+    n = fr.numerator
+    if d == 1 and n:
+        tz = (n & -n).bit_length() - 1          # keep the mantissa odd: huge powers of two stay in the exponent
+        return n >> tz, tz
+    return n, -(d.bit_length() - 1)
 
 
 def mk_mpf(ctx, fr):
